@@ -693,11 +693,12 @@ class Interp:
         return None
 
     def _for_with_invariant(self, st, fr, it, inv):
-        """inv: object with .n(it) -> trip count, .item(it, i), .havoc(fr, i), .inv(fr, i) -> list
-        of (name, goal).  Proves init, preservation; continues from inv at exit."""
+        """inv: LoopInv (trips / item / havoc / inv / step_lemmas).  Proves init and preservation;
+        continues from the invariant at exit.  inv.mode is 'prove' (goals: skolem constants may be
+        used for universally quantified clauses) or 'assume' (hypotheses: z3.ForAll)."""
         ctx = self.ctx
         n = inv.trips(self, it)
-        # init
+        inv.mode = 'prove'
         for nm, g in inv.inv(self, fr, 0, it):
             ctx.oblige('loop%d.init.%s' % (inv.ordinal, nm), g, kind='invariant')
         # arbitrary iteration: fork between "inside the loop" and "after the loop"
@@ -706,6 +707,7 @@ class Interp:
         if mode:
             ctx.assume(z3.And(i >= 0, i < n))
             inv.havoc(self, fr, i, it)
+            inv.mode = 'assume'
             for nm, g in inv.inv(self, fr, i, it):
                 ctx.assume(g)
             self.assign(st.target, inv.item(self, it, i), fr)
@@ -715,12 +717,17 @@ class Interp:
                 pass
             except BreakSig:
                 raise Unsupported('break inside loop with invariant')
-            for nm, g in inv.inv(self, fr, i + 1, it):
+            inv.mode = 'prove'
+            goals = list(inv.inv(self, fr, i + 1, it))
+            for f in inv.step_lemmas(self, fr, i, it):
+                ctx.fact(f, lemma=True)
+            for nm, g in goals:
                 ctx.oblige('loop%d.step.%s' % (inv.ordinal, nm), g, kind='invariant')
             raise Abort()
         else:
             inv.havoc(self, fr, n, it)
             ctx.assume(n >= 0)
+            inv.mode = 'assume'
             for nm, g in inv.inv(self, fr, n, it):
                 ctx.assume(g)
             self.exec_block(st.orelse, fr)
